@@ -55,10 +55,7 @@ impl<R: AsyncRead + Unpin + Send + Sync> AsyncReadPacket for R {
     }
 
     async fn read_string(&mut self) -> Result<String, Error> {
-        let length = self.read_varint().await? as usize;
-
-        let mut buffer = vec![0; length];
-        self.read_exact(&mut buffer).await?;
+        let buffer = self.read_bytes().await?;
 
         String::from_utf8(buffer).map_err(|_| Error::InvalidEncoding)
     }
@@ -96,10 +93,16 @@ impl<R: AsyncRead + Unpin + Send + Sync> AsyncReadPacket for R {
     }
 
     async fn read_bytes(&mut self) -> Result<Vec<u8>, Error> {
-        let length = self.read_varint().await? as usize;
+        // the length is controlled by the remote, it must not be negative
+        let length =
+            u64::try_from(self.read_varint().await?).map_err(|_| Error::IllegalPacketLength)?;
 
-        let mut buffer = vec![0; length];
-        self.read_exact(&mut buffer).await?;
+        // only allocate for bytes that are actually there, not for the announced length
+        let mut buffer = Vec::new();
+        (&mut *self).take(length).read_to_end(&mut buffer).await?;
+        if buffer.len() as u64 != length {
+            return Err(std::io::Error::from(std::io::ErrorKind::UnexpectedEof).into());
+        }
 
         Ok(buffer)
     }
